@@ -12,6 +12,7 @@
 Require Import IP.Base.Bytes IP.DM.Value IP.Codec.Utf8 IP.Codec.Base64 IP.Codec.DagJson.
 Require Import IP.Proofs.JsonString IP.Proofs.JsonInt IP.Proofs.JsonBase64 IP.Proofs.JsonTok IP.Proofs.JsonAbs
                IP.Proofs.JsonUnm IP.Proofs.JsonEnc IP.Proofs.JsonSort IP.Proofs.JsonMain IP.Proofs.JsonWitness.
+Require IP.Gen.FromGo IP.Proofs.GoSort.
 Open Scope N_scope.
 
 (* A1, A2, A2R, CID, nonintegral, any_float, roundtrip_for are defined at the end of Proofs/JsonMain.v:
@@ -110,3 +111,11 @@ Theorem C04_assumptions_consistent :
     A1 fmt_float parse_float /\ A2 fmt_float /\ CID cid_str cid_parse cid_ok.
 Proof. exact assumptions_consistent. Qed.
 Print Assumptions C04_assumptions_consistent.
+
+(* Tie to the source beyond the run: the comparison closures dagjson.Marshal hands to sort.Slice, translated from
+   codec/dagjson/marshal.go by gotrans on every run (Gen/FromGo.v), are exactly the key orders the model sorts by —
+   bytewise for MapSortMode_Lexical (the registered dag-json codec), length first for _RFC7049. *)
+Theorem C04_source_key_order : forall a b,
+  IP.Gen.FromGo.go_json_less_lexical a b = bytes_ltb a b /\ IP.Gen.FromGo.go_json_less_rfc7049 a b = rfc_ltb a b.
+Proof. exact (fun a b => conj (IP.Proofs.GoSort.json_less_lexical_is_model a b) (IP.Proofs.GoSort.json_less_rfc7049_is_model a b)). Qed.
+Print Assumptions C04_source_key_order.
